@@ -251,6 +251,38 @@ def generate(path):
         cl = [n for n in ast.walk(fn_) if isinstance(n, ast.Call) and isinstance(n.func, ast.Name) and n.func.id == '_prepare_times_before_simulation']
         if len(cl) != 1:
             raise Untranslatable(f'{nm}: _prepare_times_before_simulation is not called exactly once')
+    # when the strategies are executed: `elif <test>: ... r.strategy._execute()` inside `for r in router.routes`
+    def exec_guard(fn, env):
+        found = []
+        for n in ast.walk(fn):
+            if isinstance(n, ast.For) and ast.unparse(n.iter) == 'router.routes' and isinstance(n.target, ast.Name) and n.target.id == 'r':
+                for m in ast.walk(n):
+                    if isinstance(m, ast.If) and any(ast.unparse(x) == 'r.strategy._execute()' for b in m.body for x in ast.walk(b) if isinstance(x, ast.Call)):
+                        if ast.unparse(m.test) == 'r.timeframe == timeframes.MINUTE_1':
+                            continue
+                        g = bexpr(m.test, env)
+                        if g is None:
+                            raise Untranslatable(f'{fn.name}: line {m.lineno}: strategy execution test {ast.unparse(m.test)}')
+                        found.append(g)
+        if len(found) != 1:
+            raise Untranslatable(f'{fn.name}: expected one timeframe test guarding r.strategy._execute(), found {len(found)}')
+        return found[0]
+    if '_execute_routes' not in fns or [a.arg for a in fns['_execute_routes'].args.args] != ['candle_index', 'candles_step']:
+        raise Untranslatable('_execute_routes(candle_index, candles_step) not found')
+    calls = [n for n in ast.walk(lp) if isinstance(n, ast.Call) and isinstance(n.func, ast.Name) and n.func.id == '_execute_routes']
+    if len(calls) != 1 or [ast.unparse(a) for a in calls[0].args] != ['i', 'current_step']:
+        raise Untranslatable('_skip_simulator: call of _execute_routes(i, current_step) not found')
+    eg_step = exec_guard(step_fn, {'i': 'i', 'count': 'count'})
+    eg_fast = exec_guard(fns['_execute_routes'], {'candle_index': 'i', 'candles_step': 'step', 'count': 'count'})
+    # the chunk length of the fast simulator: gcd over ALL routes (trading and data)
+    if '_calculate_minimum_candle_step' not in fns:
+        raise Untranslatable('_calculate_minimum_candle_step not found')
+    cs = fns['_calculate_minimum_candle_step']
+    body = [b for b in cs.body if not (isinstance(b, ast.Expr) and isinstance(b.value, ast.Constant))]
+    want = ["consider_time_frames = [timeframe_to_one_minutes[route['timeframe']] for route in router.all_formatted_routes]",
+            'return np.gcd.reduce(consider_time_frames)']
+    if [ast.unparse(b) for b in body] != want:
+        raise Untranslatable(f'_calculate_minimum_candle_step is not the gcd over router.all_formatted_routes: {[ast.unparse(b) for b in body]}')
     for (ln, g, lo, hi, cls) in sa + fa:
         uses_count = 'count' in g or 'count' in lo or 'count' in hi
         if uses_count != (cls == 'per_tf'):
@@ -272,5 +304,10 @@ def generate(path):
             'Definition step_accesses (i count : Z) : list (bool * Z * Z) := step_first i ++ step_once i ++ step_per_tf i count.\n\n'
             f'Definition fast_once (i step : Z) : list (bool * Z * Z) :=\n  {lst(fa, "once")}.\n'
             f'Definition fast_per_tf (i step count : Z) : list (bool * Z * Z) :=\n  {lst(fa, "per_tf")}.\n'
-            'Definition fast_accesses (i step count : Z) : list (bool * Z * Z) := fast_once i step ++ fast_per_tf i step count.\n')
+            'Definition fast_accesses (i step count : Z) : list (bool * Z * Z) := fast_once i step ++ fast_per_tf i step count.\n\n'
+            '(* when a route of `count` minutes is executed: after minute i (normal) / after the chunk starting at row i (fast) *)\n'
+            f'Definition step_executes (i count : Z) : bool := {eg_step}.\n'
+            f'Definition fast_executes (i step count : Z) : bool := {eg_fast}.\n\n'
+            '(* _calculate_minimum_candle_step: np.gcd.reduce over the timeframes of router.all_formatted_routes (trading AND data routes) *)\n'
+            'Definition candle_step (all_route_timeframes : list Z) : Z := fold_left Z.gcd all_route_timeframes 0.\n')
     return text
